@@ -138,6 +138,55 @@ class HarnessError(Exception):
     pass
 
 
+def api_smoke():
+    """Does the product still have the host API the harness drives (Compile, Linker(loader=),
+    AddModule, Link, VirtualMachine, SetGlobal, GetGlobal, Invoke(name, **args))?  A call that the
+    interpreter refuses *at the call itself* (TypeError / AttributeError raised in the harness's own
+    frame) means the harness is out of date: HARNESS-ERROR, never a VIOLATION.  Anything that goes
+    wrong *inside* the product is left to the checks."""
+    from nsl import Compiler, LinearIR, VM
+
+    def step(what, fn):
+        try:
+            with Quiet():
+                return fn()
+        except (TypeError, AttributeError) as e:
+            tb = e.__traceback__
+            depth = 0
+            while tb is not None:
+                depth += 1
+                tb = tb.tb_next
+            if depth <= 2:  # step() -> the lambda: the call itself was refused
+                raise HarnessError(f"host API changed: {what} is refused ({type(e).__name__}: {e})")
+            return None
+        except (Exception, SystemExit):
+            return None
+
+    res = step("Compiler().Compile(source, options)", lambda: Compiler.Compiler().Compile(
+        "int smokeg__;\nexport function smoke__(int a) -> int { smokeg__ = a; return a; }\n", {"optimize": False}))
+    mod = step("CompileResult.IRModule", lambda: res.IRModule) if res is not None else None
+    if mod is None:
+        return
+    ld = step("MemoryModuleLoader()", lambda: LinearIR.MemoryModuleLoader())
+    step("FilesystemModuleLoader()", lambda: LinearIR.FilesystemModuleLoader())
+    if ld is not None:
+        step("MemoryModuleLoader.AddModule(name, module)", lambda: ld.AddModule("smoke__", mod))
+    lk = step("Linker(loader=...)", lambda: LinearIR.Linker(loader=ld))
+    if lk is None:
+        return
+    step("Linker.AddModule(module)", lambda: lk.AddModule(mod))
+    prog = step("Linker.Link()", lambda: lk.Link())
+    if prog is None:
+        return
+    step("Program.Functions / Program.Globals", lambda: (prog.Functions["smoke__"].Type.Arguments, list(prog.Globals.items())))
+    vm = step("VirtualMachine(program)", lambda: VM.VirtualMachine(prog))
+    if vm is None:
+        return
+    step("VirtualMachine.SetGlobal(name, value)", lambda: vm.SetGlobal("smokeg__", 1))
+    step("VirtualMachine.Invoke(name, **arguments)", lambda: vm.Invoke("smoke__", a=2))
+    step("VirtualMachine.GetGlobal(name)", lambda: vm.GetGlobal("smokeg__"))
+
+
 def run_isolated(fn, arg, timeout_s: float):
     """Run fn(arg) in a pristine forked child; return its JSON-able result.
 
